@@ -261,7 +261,7 @@ class C06(HistoryProperty):
         "histories in which at least one op had a non-empty armed set"
     )
     ASSUMPTIONS = ["hashable dispatch values, type-consistent dictionaries, template-closed dictionaries"]
-    QUICK = {"runs": 3000, "wall": 40}
+    QUICK = {"runs": 9000, "wall": 40}
     THOROUGH = {"runs": 300000, "wall": 480}
     NONTRIVIAL_MEASURE = "history_with_armed_faults"
 
